@@ -1,15 +1,14 @@
-"""C11 parse_schema — structural obligations."""
+"""C11 parse_schema — structural obligations (role-based: no dependence on local names)."""
 import ast
-import re as _re
 
 from sa.loader import AnalysisError, norm, walk_local
 from sa.cfg import cfg_of
 from sa import guards
 from sa.spec import schema_spec as spec
-from .common import analysis, names_in, ends_in_raise
+from .common import analysis, names_in, literals_tested, true_facts
 
 PROP = "C11"
-TECHNIQUE = "decision-table / pattern extraction of the full-name rule; sibling exhaustiveness of the three named-type arms; CFG dominance of unknown-reference and redefinition raises; regex AST comparison; default-kind table extraction against the spec; data-dependence of the decimal guards"
+TECHNIQUE = "decision-table / pattern extraction of the full-name rule; sibling exhaustiveness of the three named-type arms by role (name computed, redefinition raise, registration) with CFG ordering; dominance of unknown-reference raises; regex AST comparison; default-kind table extraction against the spec; data-dependence of the decimal guards"
 LEVEL_TEXT = (
     "Static analysis of the schema parser: the full-name function must implement dotted-name > explicit namespace (even the empty "
     "one) > enclosing namespace, and the record arm must pass the namespace it computed to its fields; each named-type arm (enum, "
@@ -26,32 +25,42 @@ LEVEL_NOTE = (
 ASSUMPTIONS = ["re._parser.parse yields the regex AST compared with the specification's name pattern"]
 
 
-def arms(ps):
-    """the if/elif chain on schema_type in _parse_schema (the one starting with the array arm): {type literals: If}"""
-    out = {}
-    start = None
-    for n in walk_local(ps.node):
-        if isinstance(n, ast.If) and _type_literals(n.test) == {"array"}:
-            start = n
-    cur = start
-    while cur is not None:
-        lits = _type_literals(cur.test)
-        if lits:
-            out[tuple(sorted(lits))] = cur
-        nxt = cur.orelse[0] if len(cur.orelse) == 1 and isinstance(cur.orelse[0], ast.If) else None
-        cur = nxt
-    return out
+class Roles:
+    """variables of _parse_schema found by role, not by name"""
+
+    def __init__(self, ps):
+        pp = ps.pos_params
+        if len(pp) < 8:
+            raise AnalysisError("_parse_schema no longer has its 8 positional parameters")
+        self.schema, self.namespace, self.expand, self.hint, self.names, self.named, self.default, self.ignore = pp[:8]
+        # the variable the kind dispatch tests: compared with the literal "array"
+        self.tvar = None
+        self.chain = None
+        for n in walk_local(ps.node):
+            if isinstance(n, ast.If) and isinstance(n.test, ast.Compare) and isinstance(n.test.left, ast.Name):
+                if literals_tested(n.test, n.test.left.id) == {"array"}:
+                    self.tvar, self.chain = n.test.left.id, n
+        if self.tvar is None:
+            raise AnalysisError("_parse_schema: kind dispatch (an `if <kind> == 'array'` chain) not found")
+        self.arms = {}
+        cur = self.chain
+        while cur is not None:
+            lits = literals_tested(cur.test, self.tvar)
+            if lits:
+                for l in lits:
+                    self.arms.setdefault(l, cur)
+            cur = cur.orelse[0] if len(cur.orelse) == 1 and isinstance(cur.orelse[0], ast.If) else None
+        # the dict being built: assigned from a comprehension / copy of <schema>.items()
+        self.parsed = None
+        for n in walk_local(ps.node):
+            if isinstance(n, ast.Assign) and isinstance(n.targets[0], ast.Name) and isinstance(n.value, (ast.DictComp, ast.Call)) and f"{self.schema}.items()" in norm(n.value):
+                self.parsed = n.targets[0].id
+        if self.parsed is None:
+            raise AnalysisError("_parse_schema: the dictionary being built (copy of schema.items()) not found")
 
 
-def _type_literals(test):
-    lits = set()
-    parts = test.values if isinstance(test, ast.BoolOp) and isinstance(test.op, ast.Or) else [test]
-    for t in parts:
-        if isinstance(t, ast.Compare) and isinstance(t.left, ast.Name) and t.left.id == "schema_type" and len(t.ops) == 1 and isinstance(t.ops[0], ast.Eq) and isinstance(t.comparators[0], ast.Constant):
-            lits.add(t.comparators[0].value)
-        else:
-            return set()
-    return lits
+def arm_nodes(arm):
+    return [n for st in arm.body for n in ast.walk(st)]
 
 
 def run(ctx):
@@ -59,100 +68,131 @@ def run(ctx):
     p = a.p
     ps = p.func("_schema_py:_parse_schema")
     sn = p.func("_schema_py:schema_name")
+    R = Roles(ps)
+    cfg = cfg_of(ps)
 
     # ---- R1 naming ----------------------------------------------------------------------------
     ctx.rule("C11.R1", "full name: dotted name wins, else explicit namespace (even empty), else the enclosing namespace; the record arm hands the namespace it computed to its fields", floor=6)
     sp, pp = sn.pos_params[0], sn.pos_params[1]
-    ns_assign = [n for n in walk_local(sn.node) if isinstance(n, ast.Assign) and isinstance(n.targets[0], ast.Name) and n.targets[0].id == "namespace"]
-    ok = len(ns_assign) == 1 and norm(ns_assign[0].value) == f"{sp}.get('namespace', {pp})"
-    ctx.check("C11.R1", "namespace = schema.get('namespace', parent namespace) (an explicit empty namespace is not overridden)", ok, sn.where(ns_assign[0]) if ns_assign else sn.where(), f"schema_name: {[norm(x) for x in ns_assign]}", "an explicit namespace (including the empty string, which means the null namespace) must win over the enclosing one; `or` / truthiness makes '' inherit the parent's namespace")
-    # decision table over {dotted, namespace truthy}
-    for dotted in (True, False):
-        for ns in (True, False):
-            atoms = {"'.' in name": dotted, "namespace": ns}
-            chain = [s for s in sn.node.body if isinstance(s, (ast.If, ast.Return))]
-            out = guards.run_chain(chain, {}, atoms)
-            want = "(name.rsplit('.', 1)[0], name)" if dotted else ("(namespace, f'{namespace}.{name}')" if ns else "('', name)")
-            got = norm(out[1]) if out[0] == "return" else out[0]
-            ctx.check("C11.R1", f"schema_name: dotted={dotted} namespace={ns} -> {want}", got == want, sn.where(), f"schema_name: dotted={dotted} namespace={ns} -> {got}", "the (namespace, full name) pair does not follow the specification's rule")
-    A = arms(ps)
-    rec = A.get(("error", "record"))
+    ns_assign = [n for n in walk_local(sn.node) if isinstance(n, ast.Assign) and isinstance(n.targets[0], ast.Name) and "'namespace'" in norm(n.value)]
+    name_assign = [n for n in walk_local(sn.node) if isinstance(n, ast.Assign) and isinstance(n.targets[0], ast.Name) and norm(n.value) == f"{sp}['name']"]
+    if len(ns_assign) != 1 or len(name_assign) != 1:
+        ctx.unrecognised("C11.R1", "schema_name", sn.where(), "expected one namespace assignment and one name assignment")
+    else:
+        nsv, nmv = ns_assign[0].targets[0].id, name_assign[0].targets[0].id
+        val = norm(ns_assign[0].value)
+        what = "namespace = schema.get('namespace', parent namespace) (an explicit empty namespace is not overridden)"
+        if val == f"{sp}.get('namespace', {pp})":
+            ctx.holds("C11.R1", what, sn.where(ns_assign[0]))
+        elif " or " in val or val == f"{sp}.get('namespace')":
+            ctx.violation("C11.R1", what, sn.where(ns_assign[0]), f"schema_name: {norm(ns_assign[0])}", "an explicit namespace (including the empty string, which means the null namespace) must win over the enclosing one; `or` / truthiness makes '' inherit the parent's namespace")
+        else:
+            ctx.unrecognised("C11.R1", "schema_name", sn.where(ns_assign[0]), f"namespace computed as `{val}`")
+        for dotted in (True, False):
+            for ns in (True, False):
+                atoms = {f"'.' in {nmv}": dotted, nsv: ns}
+                chain = [s for s in sn.node.body if isinstance(s, (ast.If, ast.Return))]
+                out = guards.run_chain(chain, {}, atoms)
+                want = f"({nmv}.rsplit('.', 1)[0], {nmv})" if dotted else (f"({nsv}, f'{{{nsv}}}.{{{nmv}}}')" if ns else f"('', {nmv})")
+                got = norm(out[1]) if out[0] == "return" else out[0]
+                if out[0] != "return":
+                    ctx.unrecognised("C11.R1", f"schema_name: dotted={dotted} namespace={ns}", sn.where(), f"decision chain not evaluable ({got})")
+                else:
+                    ctx.check("C11.R1", f"schema_name: dotted={dotted} namespace={ns} -> {want}", got == want, sn.where(), f"schema_name: dotted={dotted} namespace={ns} -> {got}", "the (namespace, full name) pair does not follow the specification's rule")
+    rec = R.arms.get("record")
     if rec is None:
-        raise AnalysisError("_parse_schema: record/error arm not found")
-    ok = any(isinstance(s, ast.Assign) and norm(s) in ("(namespace, fullname) = schema_name(schema, namespace)", "namespace, fullname = schema_name(schema, namespace)") for s in rec.body)
-    ctx.check("C11.R1", "record arm: namespace for the fields is the record's own", ok, ps.where(rec), "_parse_schema record arm: namespace rebinding", "fields of a record must resolve relative to the record's namespace, which the arm has to take from schema_name")
-    pf = [c for st in rec.body for c in ast.walk(st) if isinstance(c, ast.Call) and isinstance(c.func, ast.Name) and c.func.id == "parse_field"]
-    ok = len(pf) == 1 and len(pf[0].args) > 1 and norm(pf[0].args[1]) == "namespace"
-    ctx.check("C11.R1", "record arm: fields parsed with that namespace", ok, ps.where(rec), f"_parse_schema: {[norm(c)[:60] for c in pf]}", "fields are parsed under a namespace other than the record's")
-    for kinds, key in ((("array",), "items"), (("map",), "values")):
-        arm = A.get(kinds)
-        calls = [c for st in arm.body for c in ast.walk(st) if isinstance(c, ast.Call) and isinstance(c.func, ast.Name) and c.func.id == "_parse_schema"] if arm else []
-        ok = len(calls) == 1 and norm(calls[0].args[0]) == f"schema['{key}']" and norm(calls[0].args[1]) == "namespace"
-        ctx.check("C11.R1", f"{kinds[0]} arm: {key} parsed under the current namespace", ok, ps.where(arm) if arm else ps.where(), f"_parse_schema {kinds[0]} arm", "nested types must inherit the enclosing namespace")
+        raise AnalysisError("_parse_schema: record arm not found")
+    rn = arm_nodes(rec)
+    rebind = [n for n in rn if isinstance(n, ast.Assign) and isinstance(n.targets[0], ast.Tuple) and len(n.targets[0].elts) == 2 and isinstance(n.value, ast.Call) and norm(n.value.func) == sn.name]
+    ok = len(rebind) == 1 and norm(rebind[0].targets[0].elts[0]) == R.namespace and [norm(x) for x in rebind[0].value.args] == [R.schema, R.namespace]
+    ctx.check("C11.R1", "record arm: the namespace for the fields is the record's own (from schema_name)", ok, ps.where(rec), f"_parse_schema record arm: {[norm(x) for x in rebind]}", "fields of a record must resolve relative to the record's namespace, which the arm has to take from schema_name")
+    pf = [c for c in rn if isinstance(c, ast.Call) and isinstance(c.func, ast.Name) and c.func.id == "parse_field"]
+    if len(pf) != 1:
+        ctx.unrecognised("C11.R1", "record arm", ps.where(rec), f"{len(pf)} parse_field calls")
+    else:
+        ctx.check("C11.R1", "record arm: fields parsed with that namespace", len(pf[0].args) > 1 and norm(pf[0].args[1]) == R.namespace, ps.where(pf[0]), f"_parse_schema: {norm(pf[0])[:70]}", "fields are parsed under a namespace other than the record's")
+    for kind, key in (("array", "items"), ("map", "values")):
+        arm = R.arms.get(kind)
+        calls = [c for c in arm_nodes(arm) if isinstance(c, ast.Call) and isinstance(c.func, ast.Name) and c.func.id == ps.name and c.args and norm(c.args[0]) == f"{R.schema}['{key}']"] if arm else []
+        if len(calls) != 1:
+            ctx.unrecognised("C11.R1", f"{kind} arm", ps.where(arm) if arm else ps.where(), f"{len(calls)} recursive calls on schema['{key}']")
+            continue
+        ctx.check("C11.R1", f"{kind} arm: {key} parsed under the current namespace", len(calls[0].args) > 1 and norm(calls[0].args[1]) == R.namespace, ps.where(calls[0]), f"_parse_schema {kind} arm: {norm(calls[0])[:70]}", "nested types must inherit the enclosing namespace")
 
     # ---- R2 sibling exhaustiveness of named types --------------------------------------------
-    ctx.rule("C11.R2", "enum / fixed / record arms: full name, redefinition raise, names.add, registration in the table, parsed['name'] = fullname; fresh per-parse name set", floor=15)
-    for kinds in (("enum",), ("fixed",), ("error", "record")):
-        arm = A.get(kinds)
+    ctx.rule("C11.R2", "enum / fixed / record arms: full name, redefinition raise, names.add, registration in the table, parsed['name'] = fullname; fresh per-parse name set", floor=12)
+    for kind in ("enum", "fixed", "record"):
+        arm = R.arms.get(kind)
         if arm is None:
-            ctx.violation("C11.R2", f"{kinds} arm exists", ps.where(), f"_parse_schema: no arm for {kinds}", "named type kind not handled")
+            ctx.violation("C11.R2", f"{kind} arm exists", ps.where(), f"_parse_schema: no arm for {kind}", "named type kind not handled")
             continue
-        body = arm.body
-        texts = [norm(s) for s in body]
-        idx = {}
-        for i, s in enumerate(body):
-            t = norm(s)
-            if "schema_name(schema, namespace)" in t and isinstance(s, ast.Assign):
-                idx.setdefault("name", i)
-            if isinstance(s, ast.If) and norm(s.test) == "fullname in names" and ends_in_raise(s.body) and "SchemaParseException" in norm(s.body[-1]):
-                idx.setdefault("redef", i)
-            if t == "names.add(fullname)":
-                idx.setdefault("add", i)
-            if t == "named_schemas[fullname] = parsed_schema":
-                idx.setdefault("reg", i)
-            if t == "parsed_schema['name'] = fullname":
-                idx.setdefault("store", i)
-        label = "/".join(kinds)
-        for step, why in (("name", "full name computed with schema_name(schema, namespace)"), ("redef", "a name defined twice raises SchemaParseException"), ("add", "the name is recorded for the redefinition check"), ("reg", "the definition is registered in the name table"), ("store", "the parsed type carries its full name")):
-            ctx.check("C11.R2", f"{label} arm: {why}", step in idx, ps.where(arm), f"_parse_schema {label} arm lacks: {why}", f"sibling arms of the named types must all do this step; the {label} arm does not")
-        order_ok = all(k in idx for k in ("name", "redef", "add", "reg")) and idx["name"] < idx["redef"] < idx["add"] and idx["redef"] < idx["reg"]
-        ctx.check("C11.R2", f"{label} arm: redefinition is tested before the name is added / registered", order_ok, ps.where(arm), f"_parse_schema {label} arm order {idx}", "testing after registering makes every definition a redefinition or never detects one")
+        nodes = arm_nodes(arm)
+        named_here = [n for n in nodes if isinstance(n, ast.Assign) and isinstance(n.targets[0], ast.Tuple) and len(n.targets[0].elts) == 2 and isinstance(n.value, ast.Call) and norm(n.value.func) == sn.name]
+        if not named_here:
+            ctx.violation("C11.R2", f"{kind} arm: full name computed with schema_name(schema, namespace)", ps.where(arm), f"_parse_schema {kind} arm: no schema_name call", "the named type's full name is not computed by the naming rule")
+            continue
+        if len(named_here) > 1:
+            ctx.unrecognised("C11.R2", f"{kind} arm", ps.where(arm), "several schema_name calls")
+            continue
+        F = norm(named_here[0].targets[0].elts[1])
+        ctx.check("C11.R2", f"{kind} arm: full name computed with schema_name(schema, namespace)", [norm(x) for x in named_here[0].value.args] == [R.schema, R.namespace], ps.where(named_here[0]), f"_parse_schema {kind} arm: {norm(named_here[0])}", "the full name must be computed from this schema and the enclosing namespace")
+        raises = [n for n in nodes if isinstance(n, ast.Raise) and n.exc is not None and "SchemaParseException" in norm(n.exc)]
+        redef = [r for r in raises if f"{F} in {R.names}" in true_facts(cfg, cfg.node_of(r))]
+        adds = [n for n in nodes if isinstance(n, ast.Call) and norm(n) == f"{R.names}.add({F})"]
+        regs = [n for n in nodes if isinstance(n, ast.Assign) and norm(n.targets[0]) == f"{R.named}[{F}]"]
+        stores = [n for n in nodes if isinstance(n, ast.Assign) and norm(n) == f"{R.parsed}['name'] = {F}"]
+        for lst, why in ((redef, "a name defined twice raises SchemaParseException"), (adds, "the name is recorded for the redefinition check"), (regs, "the definition is registered in the name table"), (stores, "the parsed type carries its full name")):
+            ctx.check("C11.R2", f"{kind} arm: {why}", bool(lst), ps.where(arm), f"_parse_schema {kind} arm lacks: {why}", f"sibling arms of the named types must all do this step; the {kind} arm does not")
+        if redef and adds and regs:
+            tests = [t for (t, lab) in cfg.guards_of(cfg.node_of(redef[0])) if t.kind == "test" and f"{F} in {R.names}" in norm(t.ast)]
+            ok = bool(tests) and all(cfg.dominates(tests[0], cfg.node_of(x)) for x in adds + regs)
+            ctx.check("C11.R2", f"{kind} arm: redefinition is tested before the name is added / registered", ok, ps.where(arm), f"_parse_schema {kind} arm: order of test / add / registration", "testing after registering makes every definition a redefinition or never detects one")
 
     # ---- R3 undefined reference ---------------------------------------------------------------
     ctx.rule("C11.R3", "reference arm: qualified by exactly `no dot and namespace`; undefined -> UnknownType; unknown dict type -> UnknownType", floor=3)
-    qual = [n for n in walk_local(ps.node) if isinstance(n, ast.If) and any(isinstance(s, ast.Assign) and norm(s) == "schema = namespace + '.' + schema" for s in n.body)]
+    qual = [n for n in walk_local(ps.node) if isinstance(n, ast.Assign) and norm(n) in (f"{R.schema} = {R.namespace} + '.' + {R.schema}", f"{R.schema} = f'{{{R.namespace}}}.{{{R.schema}}}'")]
     if len(qual) != 1:
         ctx.unrecognised("C11.R3", "_parse_schema", ps.where(), "qualification `schema = namespace + '.' + schema` not found exactly once")
     else:
-        t = qual[0].test
-        conj = sorted(norm(v) for v in (t.values if isinstance(t, ast.BoolOp) and isinstance(t.op, ast.And) else [t]))
-        ctx.check("C11.R3", "an unqualified reference is qualified with the enclosing namespace, unconditionally on anything else", conj == ["'.' not in schema", "namespace"], ps.where(qual[0]), f"_parse_schema: qualify when {norm(t)}", "a name without dots inside a namespace denotes <namespace>.<name>; any further condition (e.g. 'not already known') lets it bind to a different type")
-        cfg = cfg_of(ps)
-        unk = [n for n in walk_local(ps.node) if isinstance(n, ast.If) and norm(n.test) == "schema not in named_schemas" and ends_in_raise(n.body) and "UnknownType" in norm(n.body[-1])]
-        ok = len(unk) == 1 and cfg.node_of(qual[0].test).id < cfg.node_of(unk[0].test).id and cfg.node_of(unk[0].test) in cfg.reachable_from(cfg.node_of(qual[0].test))
+        qn = cfg.node_of(qual[0])
+        imm = [(t, lab) for (t, lab) in cfg.guards_of(qn) if t.kind == "test" and any(m is qn for (m, l) in t.succ)]
+        if len(imm) != 1:
+            ctx.unrecognised("C11.R3", "_parse_schema", ps.where(qual[0]), "guard of the qualification not found")
+        else:
+            t = imm[0][0].ast
+            conj = sorted(norm(v) for v in (t.values if isinstance(t, ast.BoolOp) and isinstance(t.op, ast.And) else [t]))
+            ctx.check("C11.R3", "an unqualified reference is qualified with the enclosing namespace, unconditionally on anything else", conj == sorted([f"'.' not in {R.schema}", R.namespace]) and imm[0][1] == "true", ps.where(qual[0]), f"_parse_schema: qualify when {norm(t)}", "a name without dots inside a namespace denotes <namespace>.<name>; any further condition (e.g. 'not already known') lets it bind to a different type")
+        unk = [n for n in walk_local(ps.node) if isinstance(n, ast.Raise) and n.exc is not None and norm(n.exc) == f"UnknownType({R.schema})" and f"{R.schema} not in {R.named}" in true_facts(cfg, cfg.node_of(n))]
+        ok = len(unk) == 1 and cfg.node_of(unk[0]) in cfg.reachable_from(qn)
         ctx.check("C11.R3", "after qualification an undefined name raises UnknownType", ok, ps.where(unk[0]) if unk else ps.where(), "_parse_schema: undefined reference check", "references to undefined names must be rejected, after the name was qualified")
-    tail = [n for n in walk_local(ps.node) if isinstance(n, ast.Raise) and norm(n.exc) == "UnknownType(schema)"]
+    tail = [n for n in walk_local(ps.node) if isinstance(n, ast.Raise) and n.exc is not None and norm(n.exc) == f"UnknownType({R.schema})"]
     ctx.check("C11.R3", "a dict schema of unknown type raises UnknownType", len(tail) >= 2, ps.where(), f"_parse_schema: {len(tail)} UnknownType raises", "an unknown 'type' must be rejected")
 
     # ---- R4 enum symbols ------------------------------------------------------------------------
     ctx.rule("C11.R4", "enum arm validates symbols before registration; three raising checks; regex equals the specification's and is applied with fullmatch", floor=5)
-    enum = A.get(("enum",))
-    calls = [i for i, s in enumerate(enum.body) if isinstance(s, ast.Expr) and isinstance(s.value, ast.Call) and norm(s.value) == "_validate_enum_symbols(schema)"]
-    reg = [i for i, s in enumerate(enum.body) if norm(s) == "named_schemas[fullname] = parsed_schema"]
-    ctx.check("C11.R4", "enum arm: _validate_enum_symbols(schema) before the definition is registered", bool(calls) and bool(reg) and calls[0] < reg[0], ps.where(enum), "_parse_schema enum arm: symbol validation placement", "an ill-formed enum must be rejected before it becomes visible in the name table")
-    ve = p.func("_schema_py:_validate_enum_symbols")
-    raises = [n for n in walk_local(ve.node) if isinstance(n, ast.Raise) and "SchemaParseException" in norm(n.exc)]
-    cfg = cfg_of(ve)
-    gtexts = []
-    for r in raises:
-        gtexts.append(" && ".join(norm(t.ast) for (t, lab) in cfg.guards_of(cfg.node_of(r)) if t.kind == "test"))
-    ok_sym = any("isinstance(symbol, str)" in g and "fullmatch(symbol)" in g for g in gtexts)
-    ok_uni = any("len(symbols) != len(set(symbols))" in g for g in gtexts)
-    ok_def = any("'default' in schema" in g and "not in symbols" in g for g in gtexts)
-    ctx.check("C11.R4", "every symbol must be a string fully matching the name pattern", ok_sym, ve.where(), f"_validate_enum_symbols guards: {gtexts}", "malformed symbols are not rejected (fullmatch on each symbol, strings only)")
-    ctx.check("C11.R4", "duplicate symbols are rejected", ok_uni, ve.where(), f"_validate_enum_symbols guards: {gtexts}", "duplicate symbols are not rejected")
-    ctx.check("C11.R4", "an enum default outside the symbol list is rejected", ok_def, ve.where(), f"_validate_enum_symbols guards: {gtexts}", "a default that is not a symbol is not rejected")
-    rx = p.try_fold(ps.mod, ast.parse("SYMBOL_REGEX", mode="eval").body)
+    enum = R.arms.get("enum")
+    en = arm_nodes(enum) if enum else []
+    ve = vcall = None
+    for c in en:
+        if isinstance(c, ast.Call) and isinstance(c.func, ast.Name) and [norm(x) for x in c.args] == [R.schema]:
+            g = p.resolve_func(ps.mod, c.func)
+            if g is not None and "symbols" in ast.unparse(g.node) and any(isinstance(n, ast.Raise) for n in walk_local(g.node)):
+                ve, vcall = g, c
+    if ve is None:
+        ctx.violation("C11.R4", "enum arm calls the symbol checker", ps.where(enum) if enum else ps.where(), "_parse_schema enum arm: no symbol validation call", "enum symbols are not validated")
+    else:
+        regs = [n for n in en if isinstance(n, ast.Assign) and norm(n.targets[0]).startswith(f"{R.named}[")]
+        ok = bool(regs) and all(cfg.dominates(cfg.node_of(vcall), cfg.node_of(r)) for r in regs)
+        ctx.check("C11.R4", "enum arm: symbols are validated before the definition is registered", ok, ps.where(vcall), "_parse_schema enum arm: symbol validation placement", "an ill-formed enum must be rejected before it becomes visible in the name table")
+        vcfg = cfg_of(ve)
+        raises = [n for n in walk_local(ve.node) if isinstance(n, ast.Raise) and n.exc is not None and "SchemaParseException" in norm(n.exc)]
+        facts = [" && ".join(sorted(true_facts(vcfg, vcfg.node_of(r)))) for r in raises]
+        ok_sym = any("not isinstance(" in g and "str)" in g and "fullmatch(" in g for g in facts)
+        ok_uni = any("len(" in g and "set(" in g and "!=" in g for g in facts)
+        ok_def = any("'default' in" in g and "not in" in g for g in facts)
+        ctx.check("C11.R4", "every symbol must be a string fully matching the name pattern", ok_sym, ve.where(), f"{ve.name} guards: {facts}", "malformed symbols are not rejected (fullmatch on each symbol, strings only)")
+        ctx.check("C11.R4", "duplicate symbols are rejected", ok_uni, ve.where(), f"{ve.name} guards: {facts}", "duplicate symbols are not rejected")
+        ctx.check("C11.R4", "an enum default outside the symbol list is rejected (whenever a default is present)", ok_def, ve.where(), f"{ve.name} guards: {facts}", "a default that is not a symbol is not rejected (the test must be on the presence of the key, not on the default's truthiness)")
     pat = None
     r = p.resolve(ps.mod, "SYMBOL_REGEX")
     if r and r[0] == "value" and isinstance(r[2], ast.Call) and r[2].args and isinstance(r[2].args[0], ast.Constant):
@@ -170,60 +210,90 @@ def run(ctx):
     # ---- R5 default kinds -----------------------------------------------------------------------
     ctx.rule("C11.R5", "default-kind table equals the specification's for every kind; every arm that can receive a default checks it (unions and references through the one table)", floor=14)
     dm = p.func("_schema_py:_default_matches_schema")
-    table = extract_default_table(dm)
+    table = extract_default_table(p, dm)
     for kind, want in sorted(spec.DEFAULT_KINDS.items()):
         got = table.get(kind)
-        ctx.check("C11.R5", f"default of {kind} must be {want}", got == want, dm.where(), f"_default_matches_schema: {kind} -> {got}", f"a default for type {kind} is accepted/rejected by `{got}` but the specification requires a JSON value of kind {want}")
-    # union: any branch; by-name: through the table
-    ok = any(isinstance(n, ast.Return) and "any(" in norm(n) and "for s in schema" in norm(n) for n in walk_local(dm.node))
-    ctx.check("C11.R5", "a union default matches when any branch matches", ok, dm.where(), "_default_matches_schema: list arm", "union defaults must be checked against every branch")
-    ok = any(isinstance(n, ast.Assign) and norm(n) == "schema = named_schemas[schema]['type']" for n in walk_local(dm.node))
+        if got is None:
+            ctx.unrecognised("C11.R5", f"default of {kind}", dm.where(), "kind not found in the extracted table")
+        else:
+            ctx.check("C11.R5", f"default of {kind} must be {want}", got == want, dm.where(), f"_default_matches_schema: {kind} -> {got}", f"a default for type {kind} is accepted/rejected by `{got}` but the specification requires a JSON value of kind {want}")
+    dsp = dm.pos_params[1]
+    dnp = dm.pos_params[2] if len(dm.pos_params) > 2 else None
+    rec_calls = [n for n in ast.walk(dm.node) if isinstance(n, ast.Call) and isinstance(n.func, ast.Name) and n.func.id == dm.name]
+    ok = any(isinstance(n, ast.Call) and isinstance(n.func, ast.Name) and n.func.id == "any" for n in ast.walk(dm.node)) and any(dnp in [norm(x) for x in c.args] for c in rec_calls)
+    ctx.check("C11.R5", "a union default matches when any branch matches (branches checked with the name table)", ok, dm.where(), "_default_matches_schema: list arm", "union defaults must be checked against every branch, references included")
+    ok = dnp is not None and any(isinstance(n, ast.Assign) and norm(n.value) == f"{dnp}[{dsp}]['type']" for n in walk_local(dm.node))
     ctx.check("C11.R5", "a reference is checked as the kind of its definition", ok, dm.where(), "_default_matches_schema: by-name arm", "defaults of fields whose type is a reference must be checked against the referenced definition's kind")
-    uses = [c for c in walk_local(ps.node) if isinstance(c, ast.Call) and isinstance(c.func, ast.Name) and c.func.id == "_default_matches_schema"]
-    ctx.check("C11.R5", "the table is applied in the union arm, the reference arm and the primitive-dict arm", len(uses) >= 3, ps.where(), f"_parse_schema: {len(uses)} uses of _default_matches_schema", "an arm that can receive a default does not check it")
-    for kinds, typ in ((("array",), "list"), (("map",), "dict"), (("enum",), "str"), (("fixed",), "str"), (("error", "record"), "dict")):
-        arm = A.get(kinds)
-        ok = arm is not None and any(isinstance(n, ast.If) and norm(n.test) == f"default is not NO_DEFAULT and (not isinstance(default, {typ}))" and any("_raise_default_value_error" in norm(s) for s in n.body) for st in arm.body for n in ast.walk(st))
-        ctx.check("C11.R5", f"{'/'.join(kinds)} arm checks its default is a {typ}", ok, ps.where(arm) if arm else ps.where(), f"_parse_schema {'/'.join(kinds)} arm: default check", f"a default of the wrong JSON kind for {'/'.join(kinds)} is accepted")
-    rd = p.func("_schema_py:_raise_default_value_error")
-    ok = any(isinstance(n, ast.Raise) and "SchemaParseException" in norm(n.exc) for n in walk_local(rd.node))
-    ctx.check("C11.R5", "_raise_default_value_error raises SchemaParseException unless told to ignore", ok, rd.where(), "_raise_default_value_error", "a bad default does not raise")
+    uses = [c for c in ast.walk(ps.node) if isinstance(c, ast.Call) and isinstance(c.func, ast.Name) and c.func.id == dm.name]
+    with_table = [c for c in uses if len(c.args) >= 3 and norm(c.args[2]) == R.named]
+    ctx.check("C11.R5", "the table is applied in the union arm and the reference arm with the name table, and in the primitive arms", len(uses) >= 3 and len(with_table) >= 2, ps.where(), f"_parse_schema: {len(uses)} uses of the default table, {len(with_table)} with the name table", "an arm that can receive a default does not check it, or checks a union / reference without the name table")
+    rd = p.maybe_func("_schema_py:_raise_default_value_error")
+    for kind, typ in (("array", "list"), ("map", "dict"), ("enum", "str"), ("fixed", "str"), ("record", "dict")):
+        arm = R.arms.get(kind)
+        ok = False
+        for n in arm_nodes(arm) if arm is not None else []:
+            if isinstance(n, ast.Call) and isinstance(n.func, ast.Name) and rd is not None and p.resolve_func(ps.mod, n.func) is rd:
+                facts = true_facts(cfg, cfg.node_of(n))
+                if f"{R.default} is not NO_DEFAULT" in facts and f"not isinstance({R.default}, {typ})" in facts:
+                    ok = True
+        ctx.check("C11.R5", f"{kind} arm checks its default is a {typ}", ok, ps.where(arm) if arm else ps.where(), f"_parse_schema {kind} arm: default check", f"a default of the wrong JSON kind for {kind} is accepted")
+    if rd is None:
+        ctx.unrecognised("C11.R5", "default error helper", ps.where(), "_raise_default_value_error not found")
+    else:
+        ok = any(isinstance(n, ast.Raise) and n.exc is not None and "SchemaParseException" in norm(n.exc) for n in walk_local(rd.node))
+        ctx.check("C11.R5", "the default error helper raises SchemaParseException unless told to ignore", ok, rd.where(), rd.name, "a bad default does not raise")
 
     # ---- R6 decimal guards -----------------------------------------------------------------------
     ctx.rule("C11.R6", "four decimal raise sites whose guards depend on {scale}, {precision}, {precision, size}, {scale, precision}", floor=4)
-    cfg = cfg_of(ps)
+    role = {}
+    for n in walk_local(ps.node):
+        if isinstance(n, ast.Assign) and isinstance(n.targets[0], ast.Name):
+            v = norm(n.value)
+            for key in ("scale", "precision", "size"):
+                if v in (f"{R.parsed}.get('{key}')", f"{R.schema}.get('{key}')", f"{R.schema}['{key}']", f"{R.parsed}['{key}']"):
+                    role[n.targets[0].id] = key
+            if "math.log10(2)" in v:
+                role[n.targets[0].id] = "maxprec"
     sites = []
     for n in walk_local(ps.node):
-        if isinstance(n, ast.Raise) and "SchemaParseException" in norm(n.exc) and "decimal" in norm(n.exc):
+        if isinstance(n, ast.Raise) and n.exc is not None and "SchemaParseException" in norm(n.exc) and "decimal" in norm(n.exc):
             deps = set()
             for (t, lab) in cfg.guards_of(cfg.node_of(n)):
                 if t.kind == "test" and lab == "true":
-                    deps |= names_in(t.ast) & {"scale", "precision", "max_precision", "size", "logical_type", "schema_type"}
-            sites.append((n, deps))
-    want = [{"scale"}, {"precision"}, {"precision", "max_precision"}, {"scale", "precision"}]
-    got = [d - {"logical_type", "schema_type"} for (_, d) in sites]
-    for w in want:
-        ctx.check("C11.R6", f"a decimal raise guarded by {sorted(w)}", w in got, ps.where(), f"_parse_schema decimal guards: {[sorted(g) for g in got]}", f"no rejection depends on exactly {sorted(w)}")
-    mp = [n for n in walk_local(ps.node) if isinstance(n, ast.Assign) and norm(n.targets[0]) == "max_precision"]
-    ok = len(mp) == 1 and norm(mp[0].value) == "int(math.floor(math.log10(2) * (8 * size - 1)))"
-    ctx.check("C11.R6", "max precision of a fixed decimal is floor(log10(2) * (8*size - 1))", ok, ps.where(mp[0]) if mp else ps.where(), f"_parse_schema: {[norm(x) for x in mp]}", "the precision a fixed size can hold is computed differently from the specification")
+                    deps |= {role[x] for x in names_in(t.ast) if x in role}
+            sites.append(deps)
+    if not sites:
+        ctx.unrecognised("C11.R6", "_parse_schema", ps.where(), "no decimal raise site found in _parse_schema (validation moved elsewhere)")
+    else:
+        for w in ({"scale"}, {"precision"}, {"precision", "maxprec"}, {"scale", "precision"}):
+            ctx.check("C11.R6", f"a decimal raise guarded by {sorted(w)}", w in sites, ps.where(), f"_parse_schema decimal guards: {[sorted(g) for g in sites]}", f"no rejection depends on exactly {sorted(w)}")
+        mp = [n for n in walk_local(ps.node) if isinstance(n, ast.Assign) and isinstance(n.targets[0], ast.Name) and role.get(n.targets[0].id) == "maxprec"]
+        szv = [k for k, v in role.items() if v == "size"]
+        ok = len(mp) == 1 and bool(szv) and norm(mp[0].value) == f"int(math.floor(math.log10(2) * (8 * {szv[0]} - 1)))"
+        ctx.check("C11.R6", "max precision of a fixed decimal is floor(log10(2) * (8*size - 1))", ok, ps.where(mp[0]) if mp else ps.where(), f"_parse_schema: {[norm(x) for x in mp]}", "the precision a fixed size can hold is computed differently from the specification")
 
 
-def extract_default_table(dm):
-    """kind -> 'type|type' from the disjunction `(schema == K and not isinstance(default, T)) or ...`"""
+def extract_default_table(p, dm):
+    """kind -> 'type|type' from conjunctions `schema == K and <default is of the wrong type>`"""
     table = {}
+    dp, sp = dm.pos_params[0], dm.pos_params[1]
+
+    def classify(t):
+        if t == f"{dp} is not None":
+            return "NoneType"
+        pre = f"not isinstance({dp}, "
+        if t.startswith(pre) and t.endswith(")"):
+            return t[len(pre) : -1]
+        if t.startswith("not isinstance(") and f"({dp}), float)" in t:
+            return "float|int"
+        return "?" + t
+
     for n in ast.walk(dm.node):
         if isinstance(n, ast.BoolOp) and isinstance(n.op, ast.And) and len(n.values) == 2:
             a, b = n.values
-            if isinstance(a, ast.Compare) and norm(a.left) == "schema" and isinstance(a.ops[0], ast.Eq) and isinstance(a.comparators[0], ast.Constant):
-                kind = a.comparators[0].value
-                t = norm(b)
-                if t == "default is not None":
-                    table[kind] = "NoneType"
-                elif t.startswith("not isinstance(default, "):
-                    table[kind] = t[len("not isinstance(default, ") : -1]
-                elif t.startswith("not isinstance(_maybe_float(default), float)"):
-                    table[kind] = "float|int"
-                else:
-                    table[kind] = "?" + t
+            if isinstance(a, ast.Compare) and norm(a.left) == sp and len(a.ops) == 1:
+                kinds = literals_tested(a, sp)
+                for k in kinds or ():
+                    if not k.startswith("<"):
+                        table[k] = classify(norm(b))
     return table
